@@ -1,16 +1,10 @@
-// drv_matmul: column-major band matrices (see drv_matmul.h)
+// drv_matmul: row-major band matrices with equal numbers of sub- and super-diagonals (see drv_matmul.h)
 #include "drv_matmul.h"
 namespace mm {
-#define COMMA ,
-#define S_CASE(TAG, ENG) if (h[2] == TAG) { if (act) build_S1<ENG, true>(s, v); else build_S1<ENG, false>(s, v); return true; }
-bool build_group_band_c(const Spec& s, XVisitor& v) {
-  const Words& h = s.head;
-  if (h[0] != "S") return false;
-  if (h.size() < 4 || (h[1] != "a" && h[1] != "p")) throw BadOp();
-  bool act = h[1] == "a";
-  S_CASE("cb00", BandEngine<COL_MAJOR COMMA 0 COMMA 0>) S_CASE("cb11", BandEngine<COL_MAJOR COMMA 1 COMMA 1>)
-  S_CASE("cb22", BandEngine<COL_MAJOR COMMA 2 COMMA 2>) S_CASE("cb20", BandEngine<COL_MAJOR COMMA 2 COMMA 0>)
-  S_CASE("cb02", BandEngine<COL_MAJOR COMMA 0 COMMA 2>) S_CASE("cb12", BandEngine<COL_MAJOR COMMA 1 COMMA 2>)
+bool build_group_s4(const Spec& s, XVisitor& v) {
+  S_GROUP_HEAD
+  S_P("b00", BandEngine<ROW_MAJOR MM_COMMA 0 MM_COMMA 0>, 0) S_PA("b11", BandEngine<ROW_MAJOR MM_COMMA 1 MM_COMMA 1>, 2)
+  S_P("b22", BandEngine<ROW_MAJOR MM_COMMA 2 MM_COMMA 2>, 0)
   return false;
 }
 }
